@@ -28,7 +28,7 @@ RULE = ('cases: seeded histories of 40 ops (add / move / move_to / remove / move
         'by (world kind, extents, wrap, op-kind trace).')
 ASSUMPTIONS = ['only axes of positive extent are claimed (zero-extent axes are read back but not judged)',
                'extents are 0 or >= 1', 'float landing is exact on multiples of 1/8 below 2^40; elsewhere within 4*(ulp(|old|+|delta|)+ulp(extent)): float % rounds once more when it folds a negative remainder']
-FLOORS = {'quick': {'calls_with_numpy_scalars': 2849, 'wrap_mode_switched_mid_history': 795, 'placements_rejected_as_duplicate': 789, 'moves_wrap': 4000, 'moves_clamp': 4000, 'multi_lap_wraps': 800, 'saturated_low': 500, 'saturated_high': 500,
+FLOORS = {'quick': {'operations_in_the_other_world': 3968, 'calls_with_numpy_scalars': 2849, 'wrap_mode_switched_mid_history': 795, 'placements_rejected_as_duplicate': 789, 'moves_wrap': 4000, 'moves_clamp': 4000, 'multi_lap_wraps': 800, 'saturated_low': 500, 'saturated_high': 500,
                     'move_to_accepted': 2000, 'move_to_rejected': 2000, 'boundary_landings': 1500, 'removals': 1000, 'deprecated_alias_calls': 300, 'big_histories': 6, 'big_history_ops': 3000, 'wild_ops': 500,
                     'exact_ops': 7310, 'contract:SpaceWorld.containment': 30000, 'world_space': 200, 'world_discrete': 200, 'world_line': 80, 'world_grid': 80,
                     'reach:Environments.SpaceWorld.move': 8000, 'reach:Environments.SpaceWorld.move_to': 4000},
@@ -81,6 +81,34 @@ def case_history(ctx, case):
     wild = (not grid) and rng.random() < 0.25
     agents = [core.Agent(f'a{j}', model) for j in range(rng.randint(1, 5))]
     ref = {}           # agent id -> [Fraction|None per axis] for residents (None on unclaimed axes)
+    # a second world of another model is alive all the time and is populated with agents of the SAME ids, elsewhere: the two worlds have
+    # nothing to do with each other
+    shadow_model = core.Model()
+    s_kind, s_env, s_ext, s_wrap = make_world(core, envs, rng, shadow_model)
+    s_agents = {a.id: core.Agent(a.id, shadow_model) for a in agents}
+    s_ref = {}
+
+    def shadow_op():
+        a = s_agents[rng.choice(list(s_agents))]
+        pos = [0 if not e else (rng.randint(0, int(e) - 1) if s_kind != 'space' else rng.randint(0, int(e * 8)) / 8) for e in s_ext]
+        if a.id in s_ref and rng.random() < 0.15:
+            s_env.remove_agent(a.id)
+            del s_ref[a.id]
+        elif a.id in s_ref:
+            s_env.move_to(a, *pos)
+            s_ref[a.id] = tuple(pos)
+        else:
+            s_env.add_agent(a, *pos)
+            s_ref[a.id] = tuple(pos)
+        ctx.count('operations_in_the_other_world')
+
+    def verify_shadow(what):
+        for aid, a in s_agents.items():
+            got = a[P].xyz() if P in a.components else None
+            exp = s_ref.get(aid)
+            if (got is None) != (exp is None) or (got is not None and any(Fraction(float(g)) != Fraction(float(e)) for g, e in zip(got, exp))):
+                raise CaseViolation(f'{what}: agent {aid} of ANOTHER world (another model) is at {got}, expected {exp}: operations in one '
+                                    f'world reached an agent with the same id in the other', trace=trace[-8:], other_world=(s_kind, s_ext))
     trace = []
     flags = set()
     pos_axes = [k for k in range(3) if ext[k] and ext[k] > 0]
@@ -144,6 +172,7 @@ def case_history(ctx, case):
         return out
 
     def verify(who, what):
+        verify_shadow(what)
         for a in agents:
             got = actual(a)
             exp = ref.get(a.id)
@@ -177,6 +206,9 @@ def case_history(ctx, case):
         a = rng.choice(agents)
         x = rng.random()
         resident = a.id in ref
+        if rng.random() < 0.2:
+            shadow_op()
+            verify(None, 'after an operation in the other world')
         if rng.random() < 0.04:
             # the documented attribute is assigned in the middle of the history: from now on moves follow the new mode
             wrap = not wrap
